@@ -34,7 +34,7 @@ func cmpElem(a, b Elem) int {
 
 // cmpElemWide is a legal comparator that returns the difference of the keys
 // rather than -1/0/+1.
-func cmpElemWide(a, b Elem) int { return 3 * (a.Key - b.Key) }
+func cmpElemWide(a, b Elem) int { return clipInt(3 * (int64(a.Key) - int64(b.Key))) }
 
 func elemsString(es []Elem) string {
 	var sb strings.Builder
